@@ -125,7 +125,7 @@ Section StepsB8.
           destruct (proj2 R5 r' E) as (t' & K). exists t'. unfold fn. destruct (Nat.eqb_spec t' t) as [->|]; cbn; auto. congruence.
       + intros t' r'. unfold fn. destruct (Nat.eqb_spec t' t) as [->|Nt]; cbn; apply R6.
     - eapply JW_frame with (g := g) (a := a); eauto.
-      + intros r' _. apply ec_ext; auto.
-      + vwt t.
+      all: try solve [intros r' _; apply ec_ext; auto].
+      all: try solve [vwt t].
   Qed.
 End StepsB8.
